@@ -142,8 +142,10 @@ def run(ctx: core.Ctx):
     rng = random.Random(ctx.seed)
     ml = 2 if ctx.quick else 3
     head = "SPECIFICATION Spec\nCONSTANTS FromFile = {ff}\n  Emit = {e}\n  MaxLen = {ml}\n"
-    ctx.expect_holds(ctx.tlc("MC_Integral", write_cfg("MC_Integral", head.format(ff="FALSE", e="FALSE", ml=ml) + "".join(f"INVARIANT {i}\n" for i in INVS) + "CHECK_DEADLOCK FALSE\n"), workers=16, timeout=3000), "MC_Integral")
-    g = ctx.tlc("MC_Integral", write_cfg("Gen_Integral", head.format(ff="FALSE", e="TRUE", ml=2) + "INVARIANT EmitInv\nCHECK_DEADLOCK FALSE\n"), workers=1, timeout=3000)
+    if ml > 2:
+        ctx.expect_holds(ctx.tlc("MC_Integral", write_cfg("MC_Integral3", head.format(ff="FALSE", e="FALSE", ml=ml) + "".join(f"INVARIANT {i}\n" for i in INVS) + "CHECK_DEADLOCK FALSE\n"), workers=16, timeout=3400), "MC_Integral")
+    g = ctx.tlc("MC_Integral", write_cfg("MC_Integral", head.format(ff="FALSE", e="TRUE", ml=2) + "".join(f"INVARIANT {i}\n" for i in INVS) + "INVARIANT EmitInv\nCHECK_DEADLOCK FALSE\n"), workers=16, timeout=3000)
+    ctx.expect_holds(g, "MC_Integral")
     if len(g.emitted) < 15000:
         raise MachineryError(f"only {len(g.emitted)} integral cases emitted")
     for i, c in enumerate(g.emitted):
